@@ -7,6 +7,7 @@ from eqsig import sdof
 from pbt import core, gen
 from pbt.core import clause, enum_clause
 from pbt.ref import sdof as ref
+from pbt.ref import sdof_mid as mid
 
 PROPERTY = "C02"
 CLAUSES = []
@@ -17,8 +18,12 @@ ASSUMPTIONS = [
     "of the combined / interpolated input samples",
     "causality, time shift and leading-zero handling are asserted bit-for-bit (the recurrence performs the same operations); "
     "batching/permutation to 1e-10 of scale (vectorised exp/sin/cos may differ in the last bit between array lengths)",
-    "refinement: tolerance tol_C01(dt)+tol_C01(dt/m) with the 16*eps/(w dt)^3 rounding term (C02 fixes no tolerance of its own), "
-    "restricted to T/(dt/m) <= 2e4",
+    "refinement: C02 fixes no tolerance of its own; the bound used is derived from the arithmetic of two runs of the same recurrence at "
+    "steps dt and dt/m with the SAME angular frequency (see _tol_refine: 1e-10 + 16 eps n m max(1, 1/(w dt/m)) + 16 eps/(w dt)^3 + "
+    "16 eps/(w dt/m)^3 of the robust scale + input-rounding bound), restricted to T/(dt/m) <= 2e4",
+    "records: float64 arrays / views, and (linear, spectra-scale) int64, full-range int8/16/32, uint8/16, python-int lists and tuples "
+    "with the oracle evaluated at the exact values of the container (the transformed records alpha*a, -a, 2^k*a are float64); float32 "
+    "records are not generated (handled centrally); dt in [1e-7, 3], in linear / spectra-scale also as np.float64 / np.float32 / 0-d",
     "a zero period is only meaningful in first position (the code recognises T=0 there only)",
     "object-spectra: AccSignal.gen_response_spectrum refines the record by an integer factor of at most ceil(min_dt_ratio) (default 4) "
     "and appends less than one original step of constant load; the laws asserted on the object are those that survive this: exact "
@@ -49,8 +54,34 @@ def _pair(draw, max_n=None):
 
 @st.composite
 def _base(draw, lo=0.2, hi=2e4, max_p=5):
-    return {"dt": draw(gen.dts(1e-4, 3.0)), "ratios": draw(gen.period_ratios(lo, hi, 1, max_p)),
+    dt = draw(gen.dts(1e-4, 3.0))
+    if draw(st.integers(0, 4)) == 0:
+        dt = draw(gen.log_uniform(1e-7, 1e-4))   # "all dt > 0": high-rate records
+    return {"dt": dt, "ratios": draw(gen.period_ratios(lo, hi, 1, max_p)),
             "xi": draw(gen.xis()), "lead0": draw(st.integers(0, 3)) == 0}
+
+
+def _containers(draw, c):
+    """Record container (integer-typed / tuple / float) and dt container of a case."""
+    c["rec_int"] = draw(st.sampled_from(mid.INT_KINDS)) if draw(st.integers(0, 3)) == 0 else None
+    c["dt_as"] = draw(st.sampled_from(mid.DT_KINDS))
+    return c
+
+
+def _dt(case, ctx):
+    """(dt argument, case whose 'dt' is the exact value of that argument)."""
+    dt_arg, dt = mid.dt_argument(case["dt"], case.get("dt_as"))
+    ctx.cls("dt-as=%s" % case["dt_as"] if case.get("dt_as") else None, "dt<1e-4" if dt < 1e-4 else None)
+    return dt_arg, (case if dt == case["dt"] else dict(case, dt=dt))
+
+
+def _rec(spec, kind, ctx):
+    """(record argument, exact float64 values)."""
+    a = gen.build(spec)
+    if kind:
+        ctx.cls("rec=" + kind, "rec-integer" if kind != "tuple" else None)
+        return mid.int_record(a, kind)
+    return gen.as_container(spec, a), a
 
 
 def _T(case):
@@ -75,17 +106,19 @@ def _linear_cases(draw):
     a, b = draw(_pair())
     c = draw(_base())
     c.update({"a": a, "b": b, "alpha": draw(gen.scalars()), "beta": draw(gen.scalars())})
-    return c
+    return _containers(draw, c)
 
 
 @clause(CLAUSES, "linear", _linear_cases(), quick=400, thorough=2000,
-        rule="pairs of records of equal length (all kinds), alpha/beta signed log-uniform [1e-3,1e3] or +-2^k; "
+        rule="pairs of records of equal length (all kinds; one case in four in an integer-typed / python-int / tuple container, the "
+             "combination in float64), dt also below 1e-4 and as numpy scalar / 0-d array, alpha/beta signed log-uniform [1e-3,1e3] or +-2^k; "
              "non-trivial = both records non-zero and not proportional",
         oracle="metamorphic: resp(alpha a + beta b) == alpha resp(a) + beta resp(b) for u, v and the third series, "
                "bound 1e-10*robust scale + input-rounding response bound")
 def linear(case, ctx):
-    a = gen.build(case["a"])
-    b = gen.build(case["b"])
+    dt_arg, case = _dt(case, ctx)
+    a_arg, a = _rec(case["a"], case.get("rec_int"), ctx)
+    b_arg, b = _rec(case["b"], case.get("rec_int"), ctx)
     n = len(a)
     dt, xi = case["dt"], case["xi"]
     al, be = case["alpha"], case["beta"]
@@ -95,10 +128,10 @@ def linear(case, ctx):
     P = _periods(case)
     T = _T(case)
     s = 1 if case["lead0"] else 0
-    ra = ctx.lib(sdof.response_series, a, dt, P, xi)
-    rb = ctx.lib(sdof.response_series, b, dt, P, xi)
+    ra = ctx.lib(sdof.response_series, a_arg, dt_arg, P, xi)
+    rb = ctx.lib(sdof.response_series, b_arg, dt_arg, P, xi)
     comb = al * a + be * b
-    rc = ctx.lib(sdof.response_series, comb, dt, P, xi)
+    rc = ctx.lib(sdof.response_series, comb, dt_arg, P, xi)
     sua, sva, saa = ref.lib_scales(a, dt, T, xi, ra[0][s:], ra[1][s:])
     sub, svb, sab = ref.lib_scales(b, dt, T, xi, rb[0][s:], rb[1][s:])
     err_in = 4 * EPS * float(np.sum(abs(al) * np.abs(a) + abs(be) * np.abs(b)))
@@ -118,15 +151,17 @@ def _spectra_cases(draw):
     c["a"] = draw(gen.record_specs(min_n=2, max_n=MAX_N, allow_int=["view", "negstride", "readonly"]))
     c["alpha"] = draw(gen.scalars())
     c["k"] = draw(st.integers(-20, 20))
-    return c
+    return _containers(draw, c)
 
 
 @clause(CLAUSES, "spectra-scale", _spectra_cases(), quick=400, thorough=2000,
-        rule="single records, alpha as above, k in -20..20; non-trivial = non-zero record",
+        rule="single records (one in four in an integer-typed / python-int / tuple container; -a, 2^k a, alpha a in float64), dt also "
+             "below 1e-4 and as numpy scalar / 0-d array, alpha as above, k in -20..20; non-trivial = non-zero record",
         oracle="metamorphic: spectra(-a) == spectra(a) exactly, spectra(2^k a) == 2^k spectra(a) exactly, "
                "spectra(alpha a) == |alpha| spectra(a) to 1e-10 of the robust scale; pseudo and true spectra")
 def spectra_scale(case, ctx):
-    a = gen.build(case["a"])
+    dt_arg, case = _dt(case, ctx)
+    a_arg, a = _rec(case["a"], case.get("rec_int"), ctx)
     n = len(a)
     dt, xi, al, k = case["dt"], case["xi"], case["alpha"], case["k"]
     _cls(ctx, case, n)
@@ -134,17 +169,17 @@ def spectra_scale(case, ctx):
     P = _periods(case)
     T = _T(case)
     s = 1 if case["lead0"] else 0
-    ru, rv, _ = sdof.response_series(a, dt, P, xi)
+    ru, rv, _ = ctx.lib(sdof.response_series, a, dt, P, xi)
     su, sv, sa = ref.lib_scales(a, dt, T, xi, ru[s:], rv[s:])
     w = 2 * np.pi / T
     err_in = 4 * EPS * abs(al) * float(np.sum(np.abs(a)))
     bu, bv, ba = ref.perturbation_bounds(err_in, dt, n, T, xi)
     amax = float(np.max(np.abs(a)))
     for fname, f in (("pseudo_response_spectra", sdof.pseudo_response_spectra), ("true_response_spectra", sdof.true_response_spectra)):
-        base = ctx.lib(f, gen.as_container(case["a"], a), dt, P, xi)
-        neg = ctx.lib(f, -a, dt, P, xi)
-        p2 = ctx.lib(f, a * 2.0 ** k, dt, P, xi)
-        gen_ = ctx.lib(f, a * al, dt, P, xi)
+        base = ctx.lib(f, a_arg, dt_arg, P, xi)   # the record in its own container; the transformed records in float64
+        neg = ctx.lib(f, -a, dt_arg, P, xi)
+        p2 = ctx.lib(f, a * 2.0 ** k, dt_arg, P, xi)
+        gen_ = ctx.lib(f, a * al, dt_arg, P, xi)
         if fname.startswith("pseudo"):
             scales = (su, w * su, w ** 2 * su + amax)
             extra = (bu, w * bu, w ** 2 * bu)
@@ -157,6 +192,9 @@ def spectra_scale(case, ctx):
             ctx.equal(p2[j], np.asarray(base[j]) * 2.0 ** k, "%s %s of 2^%d*a" % (fname, name, k))
             tol = abs(al) * 1e-10 * scales[j] + extra[j] + 4 * EPS * abs(al) * amax
             ctx.close(np.asarray(gen_[j])[s:], abs(al) * np.asarray(base[j])[s:], tol, "%s %s of alpha*a vs |alpha|*" % (fname, name))
+            if s:   # the T=0 entry (0, 0, peak ground acceleration) scales as well
+                ctx.close(np.asarray(gen_[j])[0], abs(al) * np.asarray(base[j])[0], 4 * EPS * abs(al) * amax,
+                          "%s %s of alpha*a vs |alpha|*, T=0 entry" % (fname, name))
 
 
 # ---------------------------------------------------------------------------
@@ -279,6 +317,9 @@ def batch(case, ctx):
         for k, name in enumerate(("S_d", "S_v", "S_a")):
             ctx.close(np.asarray(pres[k])[s:], np.asarray(pb[k])[s:][idx], 1e-10 * sp_scales["pseudo"][k][idx], "%s: pseudo %s" % (what, name))
             ctx.close(np.asarray(tres[k])[s:], np.asarray(tb[k])[s:][idx], 1e-10 * sp_scales["true"][k][idx], "%s: true %s" % (what, name))
+            if s:
+                ctx.close(np.asarray(pres[k])[0], np.asarray(pb[k])[0], 4 * EPS * amax, "%s: pseudo %s, T=0 entry" % (what, name))
+                ctx.close(np.asarray(tres[k])[0], np.asarray(tb[k])[0], 4 * EPS * amax, "%s: true %s, T=0 entry" % (what, name))
 
     def call(idx):
         P = mk(idx)
@@ -297,6 +338,22 @@ def batch(case, ctx):
 
 # ---------------------------------------------------------------------------
 
+def _tol_refine(n_fine, m, T, dt):
+    """Tolerance (relative to the robust scale) for 'the response at the original instants is unchanged by refinement x m'.
+    Both runs use the same angular frequency, so whatever the library does to w (the truncated 6.2831853) is common to both and
+    cancels; none of C01's 1e-6 / 5e-8 duration/T terms applies.  What differs between the runs:
+      (i)  the load coefficients of the recurrence are differences of O(1/(w h)^3) terms: relative rounding <= 16 eps/(w h)^3 of
+           the response at either step h = dt and h = dt/m (the bound of known finding C01-KF1, which the pinned code meets);
+      (ii) each of the n_fine steps rounds the state (16 eps per step, cf. _tol_n) and applies a transition matrix whose entries carry
+           a relative rounding eps: a rotation by theta = w h whose cosine is off by eps is off in phase by eps/theta;
+      (iii) 1e-10: the floor the other clauses of this module use.
+    The rounding of the interpolated samples is added separately (perturbation_bounds).  On the pinned code the measured
+    difference stays below 1.5 % of this bound (1900 random rows incl. resonant sinusoids and constant records)."""
+    th = 2 * np.pi / np.asarray(T, dtype=float) * dt
+    thf = th / m
+    return 1e-10 + 16 * EPS * n_fine * np.maximum(1.0, 1.0 / thf) + 16 * EPS / th ** 3 + 16 * EPS / thf ** 3
+
+
 @st.composite
 def _refine_cases(draw):
     m = draw(st.integers(2, 8))
@@ -308,8 +365,9 @@ def _refine_cases(draw):
 
 @clause(CLAUSES, "refine", _refine_cases(), quick=400, thorough=2000,
         rule="records refined by m in 2..8 with linearly interpolated samples, dt/m, T/(dt/m) <= 2e4; non-trivial = non-zero record",
-        oracle="metamorphic: response at the original instants unchanged within tol_C01(dt)+tol_C01(dt/m) on the robust scale "
-               "(+ input-rounding bound); every output (S_d, S_v, S_a) of pseudo_response_spectra and true_response_spectra for the refined "
+        oracle="metamorphic: response (u, v, third series) at the original instants unchanged within 1e-10 + 16 eps n m max(1, 1/(w dt/m)) "
+               "+ 16 eps/(w dt)^3 + 16 eps/(w dt/m)^3 of the robust scale (the detuned constant is common to both runs and cancels) "
+               "+ input-rounding bound; every output (S_d, S_v, S_a) of pseudo_response_spectra and true_response_spectra for the refined "
                "record >= the raw one - the same allowance (S_a where T >= 6.001 dt: no peak-ground-acceleration substitution)")
 def refine(case, ctx):
     a = gen.build(case["a"])
@@ -327,15 +385,17 @@ def refine(case, ctx):
     r1 = ctx.lib(sdof.response_series, a, dt, P, xi)
     r2 = ctx.lib(sdof.response_series, fine, dt / m, P, xi)
     su, sv, sa = ref.lib_scales(a, dt, T, xi, r1[0][s:], r1[1][s:])
-    dur = (n - 1) * dt
-    tol = ref.tol_c01(dur, T, dt, relaxed=True) + ref.tol_c01(dur, T, dt / m, relaxed=True)
+    tol = _tol_refine(len(fine), m, T, dt)
     err_in = 4 * EPS * float(np.sum(np.abs(fine))) / m  # rounding of the interpolated samples (spacing dt/m)
     bu, bv, ba = ref.perturbation_bounds(err_in * m, dt / m, len(fine), T, xi)
     u2 = np.asarray(r2[0])[s:, ::m]
     v2 = np.asarray(r2[1])[s:, ::m]
+    a2 = np.asarray(r2[2])[s:, ::m]
+    sa = mid.escales(a, dt, T, xi, np.asarray(r1[0])[s:], np.asarray(r1[1])[s:])[2]
     ctx.shape(u2, (len(T), n), "refined displacement at original instants")
     ctx.close(u2, np.asarray(r1[0])[s:], (tol * su + bu)[:, None] + 0 * u2, "displacement at original instants after refinement x%d" % m)
     ctx.close(v2, np.asarray(r1[1])[s:], (tol * sv + bv)[:, None] + 0 * v2, "velocity at original instants after refinement x%d" % m)
+    ctx.close(a2, np.asarray(r1[2])[s:], (tol * sa + ba)[:, None] + 0 * a2, "third series at original instants after refinement x%d" % m)
     _spectra_never_decrease(ctx, a, dt, fine, dt / m, P, T, s, xi, tol, (su, sv, sa), (bu, bv, ba), "refinement x%d" % m)
 
 
@@ -376,10 +436,11 @@ def _object_cases(draw):
     c["ratio"] = draw(st.sampled_from([None, 1, 2, 4, 8, 3.5]))   # None: the default min_dt_ratio (4)
     c["perm"] = draw(st.permutations(list(range(len(c["ratios"])))))
     c["lazy"] = draw(st.booleans())
+    c["reuse"] = draw(st.booleans())   # the permuted list goes to the same object (history) instead of a fresh one
     return c
 
 
-def _object_spectra(ctx, a, dt, P, xi, ratio, lazy=False):
+def _object_spectra(ctx, a, dt, P, xi, ratio, lazy=False, keep=None):
     """(s_d, s_v, s_a) of an AccSignal: gen_response_spectrum(...) then the three properties; lazy: periods given to the
     constructor and the properties read straight away (then xi and min_dt_ratio are the defaults 0.05 and 4)."""
     import eqsig
@@ -391,9 +452,16 @@ def _object_spectra(ctx, a, dt, P, xi, ratio, lazy=False):
         if ratio is not None:
             kw["min_dt_ratio"] = ratio
         ctx.lib(asig.gen_response_spectrum, **kw)
+    out = _read_object(ctx, asig, len(P))
+    if keep is not None:
+        keep.append(asig)
+    return out
+
+
+def _read_object(ctx, asig, npd):
     out = [np.asarray(ctx.lib(lambda: asig.s_d)), np.asarray(ctx.lib(lambda: asig.s_v)), np.asarray(ctx.lib(lambda: asig.s_a))]
     for x, name in zip(out, ("s_d", "s_v", "s_a")):
-        ctx.shape(x, (len(P),), "AccSignal." + name)
+        ctx.shape(x, (npd,), "AccSignal." + name)
     return out
 
 
@@ -404,7 +472,8 @@ def _object_spectra(ctx, a, dt, P, xi, ratio, lazy=False):
         oracle="metamorphic on all three object spectra: (-a) exactly equal, (2^k a) exactly 2^k times, (alpha a) |alpha| times to 1e-10 of "
                "the robust scale; a permuted period list gives the permuted rows; refinement law: the object's spectra (it refines the "
                "record by an integer factor <= ceil(min_dt_ratio)) are >= pseudo_response_spectra of the raw record less "
-               "tol_C01(dt)+tol_C01(dt/ceil(min_dt_ratio)) on the robust scale (S_a where T >= 6.001 dt)")
+               "the refinement bound of 'refine' for m = ceil(min_dt_ratio) (S_a where T >= 6.001 dt); half of the cases put the second "
+               "(permuted) period list on the SAME object (setter + lazy read, or a second gen_response_spectrum)")
 def object_spectra(case, ctx):
     a = gen.build(case["a"])
     n = len(a)
@@ -417,11 +486,12 @@ def object_spectra(case, ctx):
     P = _periods(case)
     T = _T(case)
     s = 1 if case["lead0"] else 0
-    base = _object_spectra(ctx, a, dt, P, xi, ratio, lazy)
+    kept = []
+    base = _object_spectra(ctx, a, dt, P, xi, ratio, lazy, keep=kept)
     neg = _object_spectra(ctx, -a, dt, P, xi, ratio, lazy)
     p2 = _object_spectra(ctx, a * 2.0 ** k, dt, P, xi, ratio, lazy)
     gen_ = _object_spectra(ctx, a * al, dt, P, xi, ratio, lazy)
-    ru, rv, _ = sdof.response_series(a, dt, P, xi)
+    ru, rv, _ = ctx.lib(sdof.response_series, a, dt, P, xi)
     su, sv, sa = ref.lib_scales(a, dt, T, xi, ru[s:], rv[s:])
     w = 2 * np.pi / T
     amax = float(np.max(np.abs(a)))
@@ -439,15 +509,27 @@ def object_spectra(case, ctx):
     perm = list(case["perm"])
     if len(perm) > 1:
         Pp = np.concatenate([[0.0], T[perm]]) if s else T[perm]
-        pr = _object_spectra(ctx, a, dt, Pp, xi, ratio, lazy)
+        if case.get("reuse"):
+            # order / batch independence on ONE object that receives the two lists in turn
+            asig = kept[0]
+            ctx.cls("same-object")
+            if lazy:
+                ctx.lib(setattr, asig, "response_times", Pp)          # setter, then the lazy properties
+            else:
+                kw = {"response_times": Pp, "xi": xi}
+                if ratio is not None:
+                    kw["min_dt_ratio"] = ratio
+                ctx.lib(asig.gen_response_spectrum, **kw)
+            pr = _read_object(ctx, asig, len(Pp))
+        else:
+            pr = _object_spectra(ctx, a, dt, Pp, xi, ratio, lazy)
         for j, name in enumerate(("s_d", "s_v", "s_a")):
             ctx.close(pr[j][s:], base[j][s:][perm], 1e-10 * scales[j][perm] + core.TINY, "AccSignal.%s rows of the permuted period list" % name)
             if s:
                 ctx.equal(pr[j][0], base[j][0], "AccSignal.%s of the T=0 entry, permuted list" % name)
     # refinement law against the array function on the raw record
     raw = ctx.lib(sdof.pseudo_response_spectra, a, dt, P, xi)
-    dur = n * dt
-    tol_r = ref.tol_c01(dur, T, dt, relaxed=True) + ref.tol_c01(dur, T, dt / m_max, relaxed=True)
+    tol_r = _tol_refine((n + 1) * m_max, m_max, T, dt)
     du = tol_r * su + bu
     keep_a = (T / dt) >= 6.001
     for j, (name, allow) in enumerate((("s_d", du), ("s_v", w * du), ("s_a", w ** 2 * du))):
@@ -506,10 +588,14 @@ def many_periods(case, ctx):
     amax = float(np.max(np.abs(a)))
     for k, (name, sc) in enumerate((("S_d", su), ("S_v", w * su), ("S_a", w ** 2 * su + amax))):
         ctx.close(np.asarray(p2[k])[s:], np.asarray(p1[k])[s:][idx], 1e-10 * sc[idx], "pseudo %s after swapping two periods" % name)
+        if s:
+            ctx.close(np.asarray(p2[k])[0], np.asarray(p1[k])[0], 4 * EPS * amax, "pseudo %s, T=0 entry, after swapping two periods" % name)
     t1 = ctx.lib(sdof.true_response_spectra, a, dt, P1, xi)
     t2 = ctx.lib(sdof.true_response_spectra, a, dt, P2, xi)
     for k, (name, sc) in enumerate((("S_d", su), ("S_v", sv), ("S_a", sa + amax))):
         ctx.close(np.asarray(t2[k])[s:], np.asarray(t1[k])[s:][idx], 1e-10 * sc[idx], "true %s after swapping two periods" % name)
+        if s:
+            ctx.close(np.asarray(t2[k])[0], np.asarray(t1[k])[0], 4 * EPS * amax, "true %s, T=0 entry, after swapping two periods" % name)
 
 
 # ---------------------------------------------------------------------------
@@ -774,7 +860,7 @@ def _c02_n_enum(tier, shard, nshards):
                   "(batch + spectra: a permuted proper sub-list of the 2-6 periods, series rows and all outputs of one spectra function; pseudo / true spectra of the whole list against the series), "
                   "(refinement x2..8 whose refined record has the ladder length); optional leading 0; non-trivial = non-zero record",
              oracle="metamorphic on the whole output: shift / causality array_equal; linearity, batch and spectra-vs-series to "
-                    "(1e-10 + 16 eps n) of the energy-consistent robust scale (+ input-rounding bound); refinement to tol_C01(dt)+tol_C01(dt/m)",
+                    "(1e-10 + 16 eps n) of the energy-consistent robust scale (+ input-rounding bound); refinement to the bound of the clause 'refine'",
              exhaustive_note="three cases per ladder length (the lengths move with VERIF_SEED)", min_nontrivial=0.5, quick_shards=4)
 def mid_range(case, ctx):
     n, dt, xi, rel = case["n"], case["dt"], case["xi"], case["rel"]
@@ -795,8 +881,7 @@ def mid_range(case, ctx):
         r1 = ctx.lib(sdof.response_series, a, dt, P, xi)
         r2 = ctx.lib(sdof.response_series, fine, dt / m, P, xi)
         su, sv, sa = ref.lib_scales(a, dt, T, xi, np.asarray(r1[0])[s:], np.asarray(r1[1])[s:])
-        dur = (n0 - 1) * dt
-        tol = ref.tol_c01(dur, T, dt, relaxed=True) + ref.tol_c01(dur, T, dt / m, relaxed=True)
+        tol = _tol_refine(len(fine), m, T, dt)
         err_in = 4 * EPS * float(np.sum(np.abs(fine)))
         bu, bv, ba = ref.perturbation_bounds(err_in, dt / m, len(fine), T, xi)
         ctx.shape(r2[0], (len(T) + s, len(fine)), what + ": refined displacement")
